@@ -490,8 +490,7 @@ Definition tg_init (c : cfg) : tghost :=
 
 Lemma map_wrap_repeat0 c n : map (wrapm c) (repeat 0 n) = repeat 0 n.
 Proof.
-  induction n as [|n IH]; [reflexivity|]. cbn [repeat map]. rewrite IH. f_equal.
-  unfold wrapm. apply N.mod_0_l. pose proof (cmod_pos (c_k c)). lia.
+  induction n as [|n IH]; [reflexivity|]. cbn [repeat map]. rewrite IH. reflexivity.
 Qed.
 
 Lemma tinv_init c : TInv c (tg_init c) (tinit c).
